@@ -300,6 +300,19 @@ fn run(sh: &mut Shard) {
             }
         }
     }
+    // integers that coincide with a function's packed entry offset and slot count share no constant with it
+    crate::slices::descriptor_literal_programs(if sh.cfg.tier == crate::shard::Tier::Quick { 160 } else { 2_000 }, &mut |prog| {
+        if !sh.mine() {
+            return;
+        }
+        sh.begin(&|| printer::program(&prog));
+        sh.count("family:descriptor-literals");
+        if let Some(r) = differential(sh, "constants", &prog, opts()) {
+            if !matches!(r.model.end, End::Unspec(_) | End::Diverge) {
+                sh.nontrivial(&printer::program(&prog));
+            }
+        }
+    });
     // constant-pool ladders: indices across 255 / 65 535, same literals at top level and in a function
     crate::ladders::run_family(sh, "constants", Some("consts"), false);
     for sl in slices::slices() {
